@@ -66,7 +66,7 @@ theorem KidsOK.normal_after_normal {s : Bool} {v : Value} {a : List HTree} {P k 
   exact category_normal_of_rank this
 
 /-- Extra roots after a plugged forest can be moved into the outermost frame. -/
-theorem plug_snoc_append_extra (path : List Frame) (fr : Frame) (E : List HTree) :
+theorem plug_snoc_append_extra (path : List ZipFrame) (fr : ZipFrame) (E : List HTree) :
     ∃ path' fr', (∀ X, plug (path ++ [fr]) X ++ E = plug (path' ++ [fr']) X) ∧ fr'.h = fr.h ∧ fr'.v = fr.v := by
   cases path with
   | nil => exact ⟨[], ⟨fr.l, fr.h, fr.v, fr.r ++ E⟩, by intro X; simp, rfl, rfl⟩
@@ -75,7 +75,7 @@ theorem plug_snoc_append_extra (path : List Frame) (fr : Frame) (E : List HTree)
 
 namespace Forest
 
-theorem prevSibling_of_loc_snoc {f : Forest} {h : Nat} {rest : List Frame} {fr : Frame} {l k r}
+theorem prevSibling_of_loc_snoc {f : Forest} {h : Nat} {rest : List ZipFrame} {fr : ZipFrame} {l k r}
     (lc : Loc f.roots h (rest ++ [fr]) l k r) (nd : f.allHandles.Nodup) :
     f.prevSibling h = l.getLast?.bind
       (fun p => if p.value.category == k.value.category then some p.handle else none) := by
@@ -84,7 +84,7 @@ theorem prevSibling_of_loc_snoc {f : Forest} {h : Nat} {rest : List Frame} {fr :
   simp only
   cases l.getLast? <;> rfl
 
-theorem nextSibling_of_loc_snoc {f : Forest} {h : Nat} {rest : List Frame} {fr : Frame} {l k r}
+theorem nextSibling_of_loc_snoc {f : Forest} {h : Nat} {rest : List ZipFrame} {fr : ZipFrame} {l k r}
     (lc : Loc f.roots h (rest ++ [fr]) l k r) (nd : f.allHandles.Nodup) :
     f.nextSibling h = r.head?.bind
       (fun n => if n.value.category == k.value.category then some n.handle else none) := by
@@ -96,7 +96,7 @@ theorem nextSibling_of_loc_snoc {f : Forest} {h : Nat} {rest : List Frame} {fr :
 /-- The merge performed by `remove_consolidate_text_nodes(P, N)` on two text children of the same
     parent (`m` is what lies between them). -/
 theorem removeConsolidate_merge {f : Forest} (nd : f.allHandles.Nodup) (hc : f.consolidation = true)
-    {path : List Frame} {fr : Frame} {l0 m r0 : List HTree} {P N : HTree} {ps ns : Str}
+    {path : List ZipFrame} {fr : ZipFrame} {l0 m r0 : List HTree} {P N : HTree} {ps ns : Str}
     (he : f.roots = plug (path ++ [fr]) (l0 ++ P :: (m ++ N :: r0)))
     (hP : P.value = .text ps) (hN : N.value = .text ns) (hNk : N.kids = []) :
     f.removeConsolidate (some P.handle) (some N.handle) =
@@ -135,7 +135,7 @@ theorem cut_then_consolidate_inv {f : Forest} (hi : f.Inv) {node : Nat} {path l 
     unfold allHandles
     rw [lc.eq]
     refine List.Perm.trans ?_ (handlesList_plug_perm path _).symm
-    simp only [fi_handlesList_append, handlesList_cons, List.append_assoc]
+    simp only [fi_handlesList_append, fi_handlesList_cons, List.append_assoc]
     have a1 : (handlesList (plug path ks') ++ (handlesList E ++ (Y ++ X))).Perm
         (pathHandles path ++ (handlesList ks' ++ Y) ++ (handlesList E ++ X)) := by
       refine ((handlesList_plug_perm path ks').append_right _).trans ?_
@@ -222,8 +222,8 @@ theorem cut_then_consolidate_inv {f : Forest} (hi : f.Inv) {node : Nat} {path l 
         rw [← hplug]
         apply hi.with_roots _ ([N.handle] ++ X)
         · apply perm1
-          simp only [fi_handlesList_append, handlesList_cons, handles_setValue, List.nil_append,
-            handlesList_nil, List.append_nil, fi_handles_eq N, hNkids, List.append_assoc]
+          simp only [fi_handlesList_append, fi_handlesList_cons, handles_setValue, List.nil_append,
+            fi_handlesList_nil, List.append_nil, fi_handles_eq N, hNkids, List.append_assoc]
           refine List.Perm.append_left _ (List.Perm.append_left _ ?_)
           exact List.perm_append_comm
         · rw [validList_append, Bool.and_eq_true]
@@ -241,7 +241,7 @@ theorem cut_then_consolidate_inv {f : Forest} (hi : f.Inv) {node : Nat} {path l 
             have K3 : KidsOK (!f.everOff) fr.v (l0 ++ P :: r0) := by
               simpa using K2.remove (fun _ => by simp [hr0])
             have : KidsOK (!f.everOff) fr.v (l0 ++ P.setValue (.text (ps ++ ns)) :: r0) :=
-              K3.sameKind (by rw [setValue_value, hP]; exact ⟨rfl, rfl, rfl, rfl⟩)
+              K3.sameKind (by rw [fi_setValue_value, hP]; exact ⟨rfl, rfl, rfl, rfl⟩)
             simpa using this
           · have hl0 : validList (!f.everOff) l0 = true ∧ validTree (!f.everOff) P = true := by
               have := k2'.1; simpa only [validList_append, validList_cons, validList_nil,
